@@ -29,6 +29,7 @@ func withPrio(in FedInput, p ...string) FedInput { in.Spec.Priorities = p; retur
 
 // FedCorpus: minimised past failures (DESIGN §8); they always run first.
 var FedCorpus = []corpusCase{
+	{"null-variable-is-forwarded", withVars(fixedIn(`query Q($k: ID = "u2", $off: Boolean = false) { me { firstName lastName } x: user(id: $k) @include(if: $off) { lastName nick } }`), "Q", map[string]interface{}{"k": nil}), "a variable given as null is not a variable not given: the services must be sent the null"},
 	{"both-conditions-on-a-gateway-field", fixedIn(`{ node(id: "u1") @include(if: true) @skip(if: true) { id } me { firstName } }`), "@skip and @include together on a field the gateway answers itself: included only if both let it in"},
 	{"both-conditions-on-a-gateway-field-2", fixedIn(`{ a: node(id: "u2") @skip(if: false) @include(if: false) { id ... on User { lastName } } me { firstName } }`), ""},
 	{"both-conditions-on-a-service-field", fixedIn(`{ me @skip(if: false) @include(if: true) { firstName lastName @include(if: true) @skip(if: true) nick } }`), ""},
@@ -226,6 +227,17 @@ func (c01) Run(c *Ctx, i int) CaseResult {
 	if Canon(fc.Want) != Canon(fc.WantGo) {
 		res.Fails = append(res.Fails, Failure{Channel: "L0.oracle-crosscheck", Classifier: "oracle-disagreement", What: "Lean mono and the harness interpreter disagree", Input: in, Expected: fc.Want, Observed: fc.WantGo})
 		return res
+	}
+	if len(in.Vars) > 0 && !fc.Out.PlanErr && !fc.Out.PlanHung && fc.Op != nil && InKnownRegion(fc.Classes) == "" {
+		// the same variables as the monolith was given: what each service is sent for a variable is what the client
+		// gave for it — also when that is null, which is not the same as nothing
+		for _, vf := range CheckCalls(fc) {
+			if strings.Contains(vf.What, "$") {
+				vf.Channel = "L0.variables-forwarded"
+				res.Fails = append(res.Fails, vf)
+				break
+			}
+		}
 	}
 	// L1: the plans against the planner model the transparency argument is about
 	if !fc.Out.PlanErr && !fc.Out.PlanHung {
